@@ -77,6 +77,41 @@ def gen_cases(ctx):
         yield K, [[None if rng.random() < pm else int(rng.integers(K)) for _ in range(m)] for _ in range(n)], "rand"
 
 
+def near_ties(ctx, cvv, mv):
+    """majority_vote on weighted votes that are NEARLY but not exactly tied (0.1 + 0.2 vs 0.3, weights of 1e-9): the returned
+    class must have the exactly maximal vote, for every seed - the votes are taken from compute_vote_vectors itself."""
+    rng = ctx.rng("near")
+    pool = [0.1, 0.2, 0.3, 0.30000000000000004, 1e-9, 3e-9, 1.0, 1.0 + 2 ** -52, 0.7, 0.1 + 0.2 + 0.4]
+    for h in range(60 if ctx.is_quick else 800):
+        K = int(rng.integers(2, 4))
+        n, m = int(rng.integers(1, 4)), int(rng.integers(2, 6))
+        y = rng.integers(0, K, size=(n, m)).astype(float)
+        y[rng.random((n, m)) < 0.15] = np.nan
+        w = rng.choice(pool, size=(n, m))
+        classes = list(range(K))
+        try:
+            V = np.asarray(cvv(y, w=w.copy(), classes=classes, missing_label=np.nan), dtype=float)
+        except Exception as e:
+            ctx.violation("compute_vote_vectors", "exception", repr(e), {"y": y.tolist(), "w": w.tolist()})
+            continue
+        for seed in range(6):
+            try:
+                maj = np.asarray(mv(y, w=w.copy(), classes=classes, missing_label=np.nan, random_state=seed), dtype=float)
+            except Exception as e:
+                ctx.violation("majority_vote", "exception", repr(e), {"y": y.tolist(), "w": w.tolist(), "seed": seed})
+                break
+            ctx.count("majority_vote_near_ties")
+            bad = [i for i in range(n) if not np.isnan(y[i]).all() and (np.isnan(maj[i]) or V[i, int(maj[i])] != V[i].max())]
+            if bad:
+                i = bad[0]
+                ctx.violation("majority_vote", "not_maximal", f"sample {i}: majority={maj[i]}, votes={V[i].tolist()}",
+                              {"y": [[None if v != v else v for v in r] for r in y.tolist()], "w": [[float(v).hex() for v in r] for r in w], "seed": seed},
+                              what=f"majority_vote returned class {maj[i]} whose vote {V[i, int(maj[i])] if not np.isnan(maj[i]) else 'nan'!r} is below the maximum {V[i].max()!r} (nearly tied weighted votes)")
+                break
+        if len({float(x) for x in V.ravel()}) > 1:
+            ctx.nontriv(("near", y.tobytes(), w.tobytes()))
+
+
 def run(ctx):
     cvv, mv, ecm = _u()
     ctx.extra["rule"] = ("exhaustive label matrices with <= 2 (quick) / 3 (thorough) samples x <= 3 annotators x <= 3 classes x all missing patterns "
@@ -84,6 +119,7 @@ def run(ctx):
                          "and NaN; all four normalisation modes; non-trivial = a sample with >= 2 non-missing labels; distinct = (labels, weights, encoding, mode)")
     ctx.trusted += ["sklearn.metrics.confusion_matrix and ExtLabelEncoder are on the implementation side; numpy RandomState.random for the tie-break noise"]
     ctx.coq_props()
+    near_ties(ctx, cvv, mv)
     vcases, vmeta, ccases, cmeta = [], [], [], []
     rng = ctx.rng("w")
     for ci, (K, codes, tag) in enumerate(gen_cases(ctx)):
